@@ -71,6 +71,17 @@ def c16_job(job):
             tmpl.charts.append(SSCChart.blank())
         if rng.random() < 0.3:
             tmpl["ANIMATIONS"] = tmpl.pop("BGCHANGES")       # a template that spells a property by its legacy alias
+        q = rng.random()
+        if q < 0.2:
+            tmpl.move_to_end("VERSION")                      # a template whose VERSION is not its first property
+        elif q < 0.35:
+            del tmpl["VERSION"]                              # ... or that has none (the source may bring its own)
+        elif q < 0.45:
+            tmpl = SSCSimfile(string="")                     # a minimal template built by hand
+            tmpl["TITLE"] = "from template"
+            tmpl["XTEMPLATE"] = "kept"
+            if rng.random() < 0.5:
+                tmpl["VERSION"] = "0.83"
     if not plain and rng.random() < 0.4:
         ctmpl = SSCChart.blank()
         ctmpl.credit = "from chart template"
